@@ -67,12 +67,13 @@ FieldsL(name, parent, names) == [L0 EXCEPT !.k = "fields", !.name = name, !.pare
 ItL(i) == [k |-> "leaf", i |-> i]
 ItS(i) == [k |-> "set",  i |-> i]
 Items(leafIdxs) == [j \in DOMAIN leafIdxs |-> ItL(leafIdxs[j])]
-SetD(name, pkg, items) == [name |-> name, pkg |-> pkg, items |-> items]
+\* grp: sets of one package with the same non-empty grp are declared in ONE var spec (var A, B = NewSet(..), NewSet(..))
+SetD(name, pkg, items) == [name |-> name, pkg |-> pkg, items |-> items, grp |-> ""]
 Par(name, type) == [name |-> name, type |-> type]
 \* res: explicit result kinds (family Q) or <<>>; va: variadic last parameter
 Inj(name, params, out, cl, er, items) ==
   [name |-> name, pkg |-> "a", params |-> params, va |-> FALSE, out |-> out,
-   cl |-> cl, er |-> er, res |-> <<>>, items |-> items]
+   cl |-> cl, er |-> er, res |-> <<>>, items |-> items, file |-> 1]      \* file: which injector file of the package declares it
 
 Prog(key, fam, atoms, leaves, sets, injs) ==
   [key |-> key, fam |-> fam, atoms |-> atoms, leaves |-> leaves, sets |-> sets, injs |-> injs]
